@@ -122,6 +122,29 @@ def corpus_rejections(chk, seed, tier):
                           f"{(de['source'] or '')[:400]}", de, tags=["corpus-item-rejected"])
     C.remove_crates("c16sem_")
     C.remove_crates("c16graph_")
+    # (d) hostile strings, identifiers and documentation at every position (gen/textgen.py)
+    import textgen
+    from .corpus import Corpus
+    tg = textgen.TextGen(seed * 1000 + 77, "Y" + "a")
+    tg.hostile_items()
+    tg.doc_groups(40 if tier == "quick" else 300)
+    corpus = Corpus("c16text", [tg.finish()], entry_ctor="ts")
+    try:
+        rejected = corpus.build()
+        chk.add_eval(len(tg.items))
+        chk.coverage_extra.setdefault("corpus_items_compiled", {})["text"] = len(tg.items)
+        seen = set()
+        for de in rejected:
+            if de["item"] in seen:
+                continue
+            seen.add(de["item"])
+            inf = tg.info.get(de["item"], {})
+            chk.violation(f"C16|hostile-text-rejected|{inf.get('position')}|{inf.get('cls')}",
+                          f"item with {inf.get('position')} {inf.get('text')!r} is rejected by rustc: {de['message'][:200]}: {(de['source'] or '')[:300]}",
+                          de, tags=["hostile-text-rejected", f"cls:{inf.get('cls')}"])
+    except C.Inconclusive as e:
+        chk.note_inconclusive(str(e)[:800])
+    C.remove_crates("c16text_")
 
 
 def all_ts(it, must_err):
